@@ -123,7 +123,8 @@ PROPS.update({
         explanation="Theorem C15 (proofs/C141517VS*.v): a value set built from a list of values (subtypes without commas, names distinct up to case) reports them back in order with lower-cased names, finds every named value by name, a type-only value by type, and by type+subtype when unique. Correspondence: NewValueSet with random lists, all accessors, Signature/SignatureValues/FromSignature round trip into a fresh set; stream built: functions assembled with BuildFunc inside conversion chains must behave exactly like the model's ordinary struct-form functions (full trace, error pass-through).",
         assumptions=["BuildFunc functions are modelled as struct-in/struct-out functions with a final error; the sharing of their value sets with the callback is exercised, not modelled"]),
     "C17": dict(layer="none",
-        streams=[S("results", "check_res_all", 600, 20000), S("once", "run_prop2 CFull 17", 300, 8000), S("call", "run_prop2 CFull 17", 200, 6000)],
+        streams=[S("results", "check_res_all", 600, 20000), S("once", "run_prop2 CFull 17", 300, 8000), S("call", "run_prop2 CFull 17", 200, 6000),
+                 S("redefine", "run_prop2 CFull 17", 200, 6000)],
         witness=[],
         nontrivial_rule="function with at least one result",
         explanation="Theorem C17 (proofs/C141517VS*.v) over the model of result.go: k values followed by an error give length k, outputs in order and Err = the final value (nil when nil); a final value of a concrete error type or an error that is not last are ordinary outputs; a resolution failure gives length 0 and a non-nil error. C17_history (proofs/C0417Hist*.v): on the resolver model, over every history, the raw outputs of a successful Call are what the target's body returned in that operation or (memoized run-once target) earlier. Correspondence: functions of random result shapes (plain values, error interface at any position, *myErr concrete error type, nil and non-nil) called through Call; Len/Out(i)/Err compared by identity.",
